@@ -61,6 +61,12 @@ CLAIMS = {
          "PARTIAL: the composition into an invariant over arbitrary flush/crash/restart chains is decided by the correspondence (complete enumeration of crash points for histories of 1-4 flushes, two-crash chains, random multi-flush histories; directory listing and recovered state vs model) and the recovery oracle, not yet by a Coq induction. Process-crash model only (completed operations persist in order); two concurrent flushes are outside the model.",
          "Trusted: as C09, plus the crash-point hook in v3.rs (simulated kill = early return at a crash point; a torn write leaves the first half of the data).",
          "Coq proof of the flush protocol steps at every crash point + exhaustive crash-point enumeration against the real code"),
+ "C16": ("Theorems over all schedules (= all lists of event arrivals and clock advances, incl. stale timers after an early flush): C16_content (batches concatenated in arrival order ++ what is still buffered = the arrived events in arrival order, hence the same per-key sequence of set/deleted events as the un-aggregated subscription; hypothesis: one incoming event names a key at most once), C16_step_content with the invariant 'never both buffers non-empty, each key at most once', "
+         "C16_delay + C16_delay_invariant_all_schedules (every buffered event is covered by a trigger task due within the interval; after time has passed nothing buffered arrived an interval ago or earlier). "
+         "Correspondence: the real PStateAggregator on tokio's paused clock, every sequence of <= 3/4 events x arrival gaps {0,d/2,d,d+1}, random schedules; batches with virtual timestamps vs model; independent content/delay oracle. "
+         "PARTIAL: the order of a due timer vs a ready receive at the same instant and client back-pressure are runtime (outside the model); the unbatched first event of aggregate_loop is modelled in the session engine only.",
+         "Trusted: Coq kernel (no axioms), extraction, glue, Model/Aggregator.v (tie: `verif` re-export of PStateAggregator driven on a paused clock).",
+         "Coq invariant proofs over all schedules + paused-clock differential check"),
 }
 def chk(pid, text, note, technique):
     return {"property_id": pid, "quick_cmd": f"./wv check {pid} --tier quick", "thorough_cmd": f"./wv check {pid} --tier thorough",
